@@ -216,6 +216,25 @@ def run(cx: Cx):
                 cx.violation('R-AGREE', dinit.qualname, 'x-fastest-then-y-then-z',
                              f"the cell table's generators (outer->inner) bind tuple positions {axes_of}; row ids are x fastest, "
                              f"then y, then z only for the order z, y, x with element (x, y, z)", where=where)
+        elif isinstance(elt, TupleT) and len(elt.items) == 3 and len(gens) == 1 and not has_conds and isinstance(gens[0][0], Sym):
+            # positions derived from the row number: (i % Nx, i // Nx % Ny, i // (Nx * Ny)) for i in range(Nx * Ny * Nz)
+            i_ = gens[0][0]
+            N = {ax: layers(Attr(self_s, ext)) for ax, ext, _ in AXES}
+            want = TupleT((App('%', (i_, N['x'])), App('%', (App('//', (i_, N['x'])), N['y'])), App('//', (i_, mul(N['x'], N['y'])))))
+            got = subst_term(elt, param_of)
+            it = gens[0][1]
+            total = mul(mul(N['x'], N['y']), N['z'])
+            rng = None
+            if isinstance(it, App) and it.fn == 'range':
+                rng = it.args[0] if len(it.args) == 1 else (it.args[1] if len(it.args) == 2 and it.args[0] == ZERO else None)
+            rng = subst_term(rng, param_of) if rng is not None else None
+            if got == want and rng == total:
+                prod_ok = True
+                facts.append(('closed form', repr(got)))
+            else:
+                cx.violation('R-AGREE', dinit.qualname, 'positions-are-the-inverse-of-the-row-numbering',
+                             f"the cell table derives the position of row i as {got!r} for i in {it!r}; the inverse of the row numbering "
+                             f"x + y*Nx + z*Nx*Ny is {want!r} for i in range({total!r})", where=where)
         else:
             cx.inconclusive('R-AGREE', 'cell table producer', f"element {elt!r} / {len(gens)} generators: not the 3-axis shape",
                             where=where, function=dinit.qualname)
